@@ -120,7 +120,27 @@ func hasProp(props []string, p string) bool {
 	return false
 }
 
+func (g *genOutput) revealText(o *vc.Obligation) string {
+	var b strings.Builder
+	names := o.Reveal
+	if o.Kind == "lemma" && len(names) == 0 {
+		for n := range g.reveal {
+			names = append(names, n)
+		}
+		sort.Strings(names)
+	}
+	for _, n := range names {
+		b.WriteString(g.reveal[n])
+	}
+	return b.String()
+}
+
+// revealRelaxed: in quantifier-free mode opaque definitions cannot be stated
+// as axioms; they are simply left uninterpreted.
+func (g *genOutput) revealRelaxed(o *vc.Obligation) string { return "" }
+
 type genOutput struct {
+	reveal    map[string]string
 	obls      []*vc.Obligation
 	genErrs   map[string]string // function -> error
 	unbound   []string
@@ -149,6 +169,11 @@ func generate(cfg *config, prop string) (*genOutput, error) {
 	out.loadS = time.Since(t0).Seconds()
 	t1 := time.Now()
 	u := vc.NewUniverse()
+	specText, axioms, err := vc.SpecPrelude(prog, u)
+	if err != nil {
+		return nil, err
+	}
+	out.axioms = axioms
 	var keys []string
 	for k := range prog.Specs.Contracts {
 		keys = append(keys, k)
@@ -190,13 +215,9 @@ func generate(cfg *config, prop string) (*genOutput, error) {
 			out.obls = append(out.obls, l)
 		}
 	}
-	specText, axioms, err := vc.SpecPrelude(prog, u)
-	if err != nil {
-		return nil, err
-	}
 	out.prelude = u.Prelude(prog.Specs) + specText
-	out.relaxed = vc.RelaxPrelude(out.prelude)
-	out.axioms = axioms
+	out.reveal = u.Reveal
+	out.relaxed = vc.RelaxPrelude(out.prelude, u.RelaxDef)
 	out.genS = time.Since(t1).Seconds()
 	// trusted contracts actually used
 	seen := map[string]bool{}
@@ -230,14 +251,15 @@ func solveAll(g *genOutput, obls []*vc.Obligation, timeout time.Duration) []oblR
 				if o.Cover {
 					// vacuity guard: quantifier-free relaxation, short time-out;
 					// only "unsat" (nothing reaches this point) counts as failure
-					res[i] = oblResult{o, smt.Solve(g.relaxed+o.Relaxed, 3*time.Second)}
+					res[i] = oblResult{o, smt.Solve(g.relaxed+g.revealRelaxed(o)+o.Relaxed, 3*time.Second)}
 					continue
 				}
-				r := smt.Solve(g.prelude+o.Script, timeout)
+				rev := g.revealText(o)
+				r := smt.Solve(g.prelude+rev+o.Script, timeout)
 				if r.Status != "unsat" && r.Status != "sat" && o.Relaxed != "" {
 					// no verdict with quantifiers: look for a candidate
 					// counterexample in the quantifier-free relaxation
-					rr := smt.Solve(g.relaxed+o.Relaxed, 5*time.Second)
+					rr := smt.Solve(g.relaxed+g.revealRelaxed(o)+o.Relaxed, 5*time.Second)
 					if rr.Status == "sat" {
 						r.Model = rr.Model
 						r.Candidate = true
@@ -277,7 +299,7 @@ func cmdDump(args []string) int {
 		if *obl == "" {
 			fmt.Println(o.Name)
 		} else if strings.Contains(o.Name, *obl) {
-			fmt.Printf("; ---- %s\n%s%s(check-sat)\n(get-model)\n", o.Name, g.prelude, o.Script)
+			fmt.Printf("; ---- %s\n%s%s%s(check-sat)\n(get-model)\n", o.Name, g.prelude, g.revealText(o), o.Script)
 		}
 	}
 	return 0
